@@ -2040,6 +2040,10 @@ func (d *Document) parseDocument() error {
 	}
 
 done:
+	if d.Body == nil {
+		// 主文档部件为空，或根元素不是过渡命名空间下的 w:document
+		return WrapError("parse_document", ErrInvalidDocument)
+	}
 	Infof("解析完成，共 %d 个元素", len(d.Body.Elements))
 	return nil
 }
